@@ -94,7 +94,7 @@ def referenceTable (ff : Repair.FF) (resname : String) (mutation modification : 
   | .ok name =>
     match ff.blocks.lookup name with
     | none => none
-    | some b0 => modTable ff (modification.getD []) b0 []
+    | some b0 => modTable ff (Repair.dedupReq (modification.getD [])) b0 []
 
 /-- the reference with the `modifications` attribute written as the `repr` of the list of names
 (absent on atoms no modification touched); `node.update(ref_node)` copies it onto the molecule -/
